@@ -17,4 +17,5 @@ export VERIF=$VM/verif REPO=$VM/repo
 for c in "$@"; do
   out=$($VM/verif/vcheck "$c" quick 2>&1); rc=$?
   echo "== $c exit=$rc: $(echo "$out" | grep -c '^VIOLATION') violations"; echo "$out" | grep -A2 '^VIOLATION' | head -8 | cut -c1-400
+  [ $rc -ge 2 ] && echo "$out" | grep -v "^\s*$" | head -40 | cut -c1-300
 done
